@@ -128,45 +128,6 @@ def viewBranch (ops : List VOp) (states : List VState) : String :=
   b "e" (states.any fun v => v.err) ++
   b "l" (states.any fun v => v.arts.length ≥ 4)
 
-/-- C12's known finding F12 seen from here: the patch table of `glue/core/state.py` rewrites the class
-names `glue.viewers.{histogram,profile}.layer_artist.*LayerArtist` to `glue_qt.…`, so
-`Viewer.__setgluestate__` raises (`Module 'glue_qt…' not found`) when a saved histogram / profile
-viewer has at least one layer.  The viewer model (`restoreV`) describes the scatter and image
-viewers; for the two patched classes the driver predicts the failure (`dead` from then on). -/
-def restoreFails (cls : String) (v : VState) (op : VOp) : Bool :=
-  op == .restore && (cls == "hi" || cls == "pr") && !v.arts.isEmpty
-
-def stepView (n c cls : Sexp) (ops : List Sexp) (pyout : Sexp) : String :=
-  match nDataOf? n, c.toNat?, ops.mapM vopOf? with
-  | some n, some colors, some ops =>
-    let cls := match cls with | .atom a => a | _ => ""
-    let v0 := C18Viewer.init n colors
-    -- the trace: `none` once a restore of a patched class has failed
-    let trace := (ops.foldl (fun (acc : List (Option VState) × Option VState) op =>
-        match acc.2 with
-        | none => (acc.1 ++ [none], none)
-        | some v =>
-          if restoreFails cls v op then (acc.1 ++ [none], none)
-          else let v' := C18Viewer.step v op; (acc.1 ++ [some v'], some v')) ([some v0], some v0)).1
-    let states := trace.filterMap id
-    let named := (trace.foldl (fun (acc : List (Sexp × Option Want) × Ren × Ren) ov =>
-        match ov with
-        | none => (acc.1 ++ [(Sexp.atom "dead", none)], acc.2.1, acc.2.2)
-        | some v =>
-          let ms := renExtend acc.2.1 (subIdsOf v)
-          let ma := renExtend acc.2.2 (artIdsOf v)
-          (acc.1 ++ [(snapshot ms ma v, some (renWant ms v.want))], ms, ma)) ([], [], [])).1
-    let dead := trace.any (·.isNone)
-    let implok := !dead && states.all specOkV
-    let ok := match pyout with
-      | .list pys => pys.length == named.length &&
-          (pys.zip named).all fun (py, (_, w)) => match w with
-            | some w => pySnapOk w py
-            | none => false
-      | _ => false
-    driverResult (.list (named.map (·.1))) ok implok (!dead) (viewBranch ops states ++ (if dead then "D" else "-"))
-  | _, _, _ => driverError "view-args"
-
 /-! ## families `combo`, `dcombo`: attribute / dataset pickers
 
 `(combo (nData idx (op …)) <snapshots>)`, snapshot =
@@ -519,14 +480,48 @@ def stepAxes (ndims worlds : Sexp) (ops : List Sexp) (pyout : Sexp) : String :=
     let ok := match pyout with
       | .list pys => pys.length == states.length && pys.all (pyAxesOk ndim world)
       | _ => false
-    let p := ndims.all (fun n => decide (2 ≤ n))
-    let br := (if states.any (fun s => s.crashed) then "c" else "-") ++
+    let br := (if ndims.any (fun n => decide (n < 2)) then "1" else "-") ++
+              (if states.any (fun s => s.ref.isNone && !s.layers.isEmpty) then "n" else "-") ++
               (if states.any (fun s => s.err) then "e" else "-") ++
               (if ops.any (fun o => match o with | .setRef _ => true | _ => false) then "r" else "-")
-    driverResult (.list (states.map (axesSnap world))) ok implok p br
+    driverResult (.list (states.map (axesSnap world))) ok implok true br
   | _, _, _ => driverError "axes-args"
 
 end Combo
+
+/-! ## families `view`, `viewr`: the layer bookkeeping of the four viewer classes
+
+`nData` is a number (so many 2-d datasets, template `bare`) or a list of template atoms; for the image
+viewer (`cls = im`) the templates say which datasets are 1-d: `SimpleImageViewer` refuses a 1-d dataset /
+subset while it has no layer (`imageRefuses`; theorem `viewer_refusing_spec` covers every refusal rule).
+Save + restore is the model's `restoreV` for all four classes (histogram / profile viewers with layers
+restore since `fix: patch fallback to live class`, C12's F12b). -/
+def stepView (n c cls : Sexp) (ops : List Sexp) (pyout : Sexp) : String :=
+  match tmplsOf? bareT n, c.toNat?, ops.mapM vopOf? with
+  | some ts, some colors, some ops =>
+    let cls := match cls with | .atom a => a | _ => ""
+    let oneD := fun (d : Nat) => match ts[d]? with
+      | some t => t.npix < 2
+      | none => false
+    let refuses : VState → VOp → Bool := if cls == "im" then imageRefuses oneD else neverRefuses
+    let v0 := C18Viewer.init ts.length colors
+    let states := (ops.foldl (fun (acc : List VState × VState) op =>
+        let v' := stepR refuses acc.2 op
+        (acc.1 ++ [v'], v')) ([v0], v0)).1
+    let named := (states.foldl (fun (acc : List (Sexp × Want) × Ren × Ren) v =>
+        let ms := renExtend acc.2.1 (subIdsOf v)
+        let ma := renExtend acc.2.2 (artIdsOf v)
+        (acc.1 ++ [(snapshot ms ma v, renWant ms v.want)], ms, ma)) ([], [], [])).1
+    let implok := states.all specOkV
+    let ok := match pyout with
+      | .list pys => pys.length == named.length &&
+          (pys.zip named).all fun (py, (_, w)) => pySnapOk w py
+      | _ => false
+    let refused := ((states.zip ops).any fun (v, op) => refuses v op)
+    let has1d := cls == "im" && (List.range ts.length).any oneD
+    driverResult (.list (named.map (·.1))) ok implok true
+      (viewBranch ops states ++ (if refused then "R" else "-") ++ (if has1d then "1" else "-") ++ cls)
+  | _, _, _ => driverError "view-args"
 
 /-! ## family `vpick`: the attribute pickers of a viewer state, in situ
 
